@@ -177,6 +177,15 @@ def binder_records(repo):
                         rec['visible_before'].append((s.variant, gen(p)))
                 if binder['reaches_after'] and not t.bind_visible_after(b):
                     rec['not_after'].append(s.variant)
+                # a binder of a *new* scope (parameter) is bound there whatever the enclosing scope declares
+                if binder['scope'] == 'new':
+                    for ps in s.paths:
+                        if ps.raised is None and ps is not bp:
+                            b2 = find_bind(ps, binder)
+                            ns2 = [ns['token'] for ns in ps.new_scopes]
+                            if b2 is None or scope_of_region(ps, b2['region']) not in ns2:
+                                rec['wrong_scope'].append((s.variant, 'decisions %s' % [t for t, v in ps.decisions if v],
+                                                           'not bound in its own scope'))
                 # global route: on the path where this identifier is declared global
                 for ps in s.paths:
                     if ps.raised is None and any(tag[0] == 'in' and tag[1] == binder['ident'] and v
